@@ -136,23 +136,23 @@ pub const SITES: &[Site] = &[
     site!("case_nested", "void t() { switch (0) { default: break; case @: { if (true) { break; } } } }\n", Look::Cases, Rule::Labels(1)),
     site!("case_twice", "void t() { switch (0) { case @: break; case @: break; } }\n", Look::Cases, Rule::Labels(2)),
     // ---- template value arguments: types.rs parse_and_evaluate_constant_expression, scopes.rs
-    site!("template", "template<uint N> uint tf() { return N; }\nvoid t() { tf<@>(); }\n", Look::FnTemplateArg, Rule::SameInt, via T::UInt, "@"),
-    site!("template_int", "template<int N> int tf() { return N; }\nvoid t() { tf<@>(); }\n", Look::FnTemplateArg, Rule::SameInt, via T::Int, "@"),
-    site!("template_bool", "template<bool N> bool tf() { return N; }\nvoid t() { tf<@>(); }\n", Look::FnTemplateArg, Rule::SameInt, via T::Bool, "@"),
-    site!("template_body", "template<uint N> uint tf() { return N; }\nvoid t() { tf<@>(); }\n", Look::ReturnLiteral("tf"), Rule::SameInt, via T::UInt, "@"),
-    site!("tstruct", "template<uint N> struct TS { uint f() { return N; } };\nvoid t() { TS<@> ts; ts.f(); }\n", Look::ReturnLiteral("f"), Rule::SameInt, via T::UInt, "@"),
-    site!("tstruct_default", "template<uint N = @> struct TS { uint f() { return N; } };\nvoid t() { TS<> ts; ts.f(); }\n", Look::ReturnLiteral("f"), Rule::SameInt, via T::UInt, "@"),
-    site!("tstruct_int", "template<int N> struct TS { int f() { return N; } };\nvoid t() { TS<@> ts; ts.f(); }\n", Look::ReturnLiteral("f"), Rule::SameInt, via T::Int, "@"),
-    site!("tbody_array", "template<uint N> void tf() { float pa[N]; }\nvoid t() { tf<@>(); }\n", Look::LocalArray("pa"), ARR, via T::UInt, "@"),
-    site!("tbody_arith", "template<uint N> void tf() { float pa[(N - 4) / 1073741824 + 1]; }\nvoid t() { tf<@>(); }\n", Look::LocalArray("pa"), ARR, via T::UInt, "(@ - 4) / 1073741824 + 1"),
-    site!("tstruct_array", "template<uint N> struct TS { float pa[N]; };\nvoid t() { TS<@> ts; }\n", Look::MemberArray("TS", "pa"), ARR, via T::UInt, "@"),
-    site!("template_two", "template<uint N> uint tf() { return N; }\nvoid t() { tf<7>(); tf<@>(); }\n", Look::FnTemplateArg, Rule::SameInt, via T::UInt, "@"),
-    site!("tstruct_two", "template<uint N> struct TS { float pa[N]; };\nvoid t() { TS<7> ta; TS<@> tb; }\n", Look::MemberArray("TS", "pa"), ARR, via T::UInt, "@"),
-    site!("template_mixed", "template<typename TT, uint N> TT tf() { return (TT)N; }\nvoid t() { tf<float, @>(); }\n", Look::FnTemplateArg, Rule::SameInt, via T::UInt, "@"),
-    site!("vector_dim", "vector<float, @> pv;\n", Look::Dims("pv"), Rule::Dim { before: "", after: "" }),
-    site!("matrix_rows", "matrix<float, @, 2> pv;\n", Look::Dims("pv"), Rule::Dim { before: "", after: ",2" }),
-    site!("matrix_cols", "matrix<float, 3, @> pv;\n", Look::Dims("pv"), Rule::Dim { before: "3,", after: "" }),
-    site!("rayquery", "void t() { RayQuery<@> pq; }\n", Look::RayFlags("pq"), size("flags:", 0, U32MAX, false)),
+    site!("template", "template<uint N> uint tf() { return N; }\nvoid t() { tf<(@)>(); }\n", Look::FnTemplateArg, Rule::SameInt, via T::UInt, "@"),
+    site!("template_int", "template<int N> int tf() { return N; }\nvoid t() { tf<(@)>(); }\n", Look::FnTemplateArg, Rule::SameInt, via T::Int, "@"),
+    site!("template_bool", "template<bool N> bool tf() { return N; }\nvoid t() { tf<(@)>(); }\n", Look::FnTemplateArg, Rule::SameInt, via T::Bool, "@"),
+    site!("template_body", "template<uint N> uint tf() { return N; }\nvoid t() { tf<(@)>(); }\n", Look::ReturnLiteral("tf"), Rule::SameInt, via T::UInt, "@"),
+    site!("tstruct", "template<uint N> struct TS { uint f() { return N; } };\nvoid t() { TS<(@)> ts; ts.f(); }\n", Look::ReturnLiteral("f"), Rule::SameInt, via T::UInt, "@"),
+    site!("tstruct_default", "template<uint N = (@)> struct TS { uint f() { return N; } };\nvoid t() { TS<> ts; ts.f(); }\n", Look::ReturnLiteral("f"), Rule::SameInt, via T::UInt, "@"),
+    site!("tstruct_int", "template<int N> struct TS { int f() { return N; } };\nvoid t() { TS<(@)> ts; ts.f(); }\n", Look::ReturnLiteral("f"), Rule::SameInt, via T::Int, "@"),
+    site!("tbody_array", "template<uint N> void tf() { float pa[N]; }\nvoid t() { tf<(@)>(); }\n", Look::LocalArray("pa"), ARR, via T::UInt, "@"),
+    site!("tbody_arith", "template<uint N> void tf() { float pa[(N - 4) / 1073741824 + 1]; }\nvoid t() { tf<(@)>(); }\n", Look::LocalArray("pa"), ARR, via T::UInt, "(@ - 4) / 1073741824 + 1"),
+    site!("tstruct_array", "template<uint N> struct TS { float pa[N]; };\nvoid t() { TS<(@)> ts; }\n", Look::MemberArray("TS", "pa"), ARR, via T::UInt, "@"),
+    site!("template_two", "template<uint N> uint tf() { return N; }\nvoid t() { tf<7>(); tf<(@)>(); }\n", Look::FnTemplateArg, Rule::SameInt, via T::UInt, "@"),
+    site!("tstruct_two", "template<uint N> struct TS { float pa[N]; };\nvoid t() { TS<7> ta; TS<(@)> tb; }\n", Look::MemberArray("TS", "pa"), ARR, via T::UInt, "@"),
+    site!("template_mixed", "template<typename TT, uint N> TT tf() { return (TT)N; }\nvoid t() { tf<float, (@)>(); }\n", Look::FnTemplateArg, Rule::SameInt, via T::UInt, "@"),
+    site!("vector_dim", "vector<float, (@)> pv;\n", Look::Dims("pv"), Rule::Dim { before: "", after: "" }),
+    site!("matrix_rows", "matrix<float, (@), 2> pv;\n", Look::Dims("pv"), Rule::Dim { before: "", after: ",2" }),
+    site!("matrix_cols", "matrix<float, 3, (@)> pv;\n", Look::Dims("pv"), Rule::Dim { before: "3,", after: "" }),
+    site!("rayquery", "void t() { RayQuery<(@)> pq; }\n", Look::RayFlags("pq"), size("flags:", 0, U32MAX, false)),
     // ---- const initialisers: globals.rs, statements.rs parse_vardef
     site!("constint", "static const int pc = @;\n", Look::GlobalConst("pc"), Rule::Stored(Some(T::Int))),
     site!("constuint", "static const uint pc = @;\n", Look::GlobalConst("pc"), Rule::Stored(Some(T::UInt))),
@@ -198,6 +198,68 @@ pub const SITES: &[Site] = &[
     site!("minlod", "SamplerState ps = StaticSampler { MinLOD = @; };\n", Look::Lod("ps", false), Rule::F32),
     site!("maxlod", "SamplerState ps = StaticSampler { MaxLOD = @; };\n", Look::Lod("ps", true), Rule::F32),
 ];
+
+/// what the Lean model of a position (`Model.ConstPos`) is given besides the site name
+pub enum ModelInput {
+    /// the IR of the expression in the hole: the position evaluates exactly this expression
+    Hole,
+    /// the static type class of the hole and its IR (enumerator initialisers)
+    EnumMember,
+    /// the IR of the initialiser as the type checker built it (implicit conversion to the declared type included)
+    Initialiser,
+    /// the position is outside the model (value flows through further declarations, RayQuery flags, ...)
+    None,
+}
+
+pub fn model_input(s: &Site) -> ModelInput {
+    if s.pre.is_some() && s.via.is_none() {
+        return ModelInput::None; // flow sites
+    }
+    match s.name {
+        "tbody_arith" | "rayquery" | "array_init" | "nonconst_use" | "localnonconst_use" | "flow_template" => ModelInput::None,
+        "enum" | "enumnext" | "enum_after0" | "enum_ns" => ModelInput::EnumMember,
+        _ => match s.look {
+            // `return N` is converted to the return type; literals are folded by the type checker on the way
+            Look::ReturnLiteral(_) => ModelInput::None,
+            Look::GlobalConst(_) | Look::LocalConst(_) => ModelInput::Initialiser,
+            _ => ModelInput::Hole,
+        },
+    }
+}
+
+/// the initialiser expression of the observed variable, as IR
+pub fn initialiser_tree(m: &ir::Module, l: &Look) -> Option<X> {
+    match l {
+        Look::GlobalConst(name) => {
+            let g = m.global_registry.iter().find(|g| g.name.node == *name)?;
+            match g.init.as_ref()? {
+                ir::Initializer::Expression(e) => Some(x_of_expr(m, e)),
+                _ => None,
+            }
+        }
+        Look::LocalConst(name) => {
+            let mut found = None;
+            for id in m.function_registry.iter() {
+                if let Some(imp) = m.function_registry.get_function_implementation(id) {
+                    let mut visit = |vd: &ir::VarDef| {
+                        if m.variable_registry.get_local_variable(vd.id).name.node == *name {
+                            if let Some(ir::Initializer::Expression(e)) = &vd.init {
+                                found = Some(x_of_expr(m, e));
+                            }
+                        }
+                    };
+                    walk_statements(&imp.scope_block.0, &mut |st| match &st.kind {
+                        ir::StatementKind::Var(vd) => visit(vd),
+                        ir::StatementKind::For(ir::ForInit::Definitions(vds), _, _, _) => vds.iter().for_each(&mut visit),
+                        _ => {}
+                    });
+                }
+            }
+            found
+        }
+        _ => None,
+    }
+}
 
 pub fn site(name: &str) -> Option<&'static Site> {
     SITES.iter().find(|s| s.name == name)
@@ -829,7 +891,7 @@ fn render_enumerator(k: &K) -> Option<String> {
 }
 
 /// the property's verdict on a whole enum: C semantics of the enumerator sequence
-pub fn judge_enum(members: &[String], want_of: &dyn Fn(&str) -> Option<Want>, obs: &str) -> String {
+pub fn judge_enum(members: &[String], want_of: &dyn Fn(&str) -> Option<Want>, obs: &str, standalone: &mut Vec<String>) -> String {
     if obs.starts_with("panic:") {
         return format!("FAIL:panic {}", &obs[6..]);
     }
@@ -842,6 +904,7 @@ pub fn judge_enum(members: &[String], want_of: &dyn Fn(&str) -> Option<Want>, ob
     let mut soft = false; // a rejection is acceptable (successor does not fit the previous enumerator's type)
     for (i, m) in members.iter().enumerate() {
         let k = if m == "-" {
+            standalone.push("-".into());
             match during.last() {
                 None => K::I32(0),
                 Some(K::Lit(v)) => match v.checked_add(1) {
@@ -892,6 +955,7 @@ pub fn judge_enum(members: &[String], want_of: &dyn Fn(&str) -> Option<Want>, ob
                     }
                 }
             }
+            standalone.push(e.clone());
             match want_of(&e) {
                 None => return if rejected { "ok".into() } else { "SKIP:standalone form of the initialiser does not type check".into() },
                 Some(Want::Val(k)) => k,
